@@ -191,6 +191,19 @@ def emit_pass(run, r, prop, log):
     smb = P.build_capture_sm()
     if smb:
         flav.append(('state-machine', smb))
+    # rendering decisions predicted by the Lean model (Emit.planGraph): comparison chains, look-up-table ids and
+    # contents, jump tables; theorems planState_fork_sem / planState_loop_sem say the predicted code computes the
+    # interpreter's transition function
+    pred = {}
+    if prop != 'C07':
+        pl = []
+        for i in acc:
+            pl += P.case_block(str(i), r['caps'][i], None) + ['Q EMIT']
+        pa = P.run_lean(pl, nproc=8)
+        pred = {i: pa.get('%d EMIT' % i) for i in acc}
+        res['plans_predicted'] = sum(1 for v in pred.values() if v)
+        res['plans_matching_text'] = 0
+        res['plan_mismatches'] = []
     for name, binp in flav:
         o = subprocess.run([binp, '--code'], input='\n----\n'.join(srcs) + '\n', capture_output=True, text=True).stdout
         caps2 = P._parse_capture(o, len(srcs))
@@ -200,6 +213,13 @@ def emit_pass(run, r, prop, log):
             i = acc[k]
             if c is None or c.verdict != 'ACCEPT' or c.codetext is None:
                 continue
+            if pred.get(i):
+                pm = E.compare_plan(c.codetext, pred[i])
+                if pm is None:
+                    res['plans_matching_text'] += 1
+                elif len(res['plan_mismatches']) < 10:
+                    # not a violation by itself: the static evaluation below decides whether the code still implements the graph
+                    res['plan_mismatches'].append(dict(origin=r['corpus'][i].origin, generator=name, difference=pm))
             diffs = E.compare(c.codetext, r['caps'][i])
             # the is_prefix guard only matters to partial lexing: it is judged under C07, everything else under C01
             if prop == 'C07':
